@@ -159,7 +159,7 @@ def worker_hypothesis(args) -> dict:
         from hypothesis import HealthCheck, Phase, given, settings
 
         acc = Acc()
-        t_end = time.time() + seconds
+        t_end = [None]  # the budget clock starts with the first case (worker start-up is not charged to it)
         # Hypothesis' shrinker is bounded by a wall-clock cap: once it is exceeded we leave the engine and keep the
         # smallest failing case seen so far.  Cases always come from the strategy, so they stay in the valid domain.
         state = {"failing": None, "t_shrink_end": None}
@@ -168,6 +168,9 @@ def worker_hypothesis(args) -> dict:
             pass
 
         class _StopShrink(KeyboardInterrupt):
+            pass
+
+        class _StopCampaign(KeyboardInterrupt):
             pass
 
         phases = [Phase.generate, Phase.shrink]
@@ -190,9 +193,11 @@ def worker_hypothesis(args) -> dict:
                 raise _Viol(fail_msg)  # the only raise site: Hypothesis keys failures by source line
 
         def evaluate(case):
-            if state["failing"] is None and (time.time() > t_end or os.path.exists(stop_flag)):
+            if t_end[0] is None:
+                t_end[0] = time.time() + seconds
+            if state["failing"] is None and (time.time() > t_end[0] or os.path.exists(stop_flag)):
                 acc.skipped += 1
-                return None
+                raise _StopCampaign()  # leave the engine at once instead of generating the remaining examples
             if state["failing"] is not None and time.time() > state["t_shrink_end"]:
                 raise _StopShrink()  # not an Exception: propagates straight through Hypothesis' engine
             res = safe_run_case(mod, case)
@@ -217,6 +222,8 @@ def worker_hypothesis(args) -> dict:
                 campaign()
         except (_Viol, _StopShrink):
             acc.violation = state["failing"]
+        except _StopCampaign:
+            pass
         except hypothesis.errors.HypothesisException:
             if state["failing"] is None:
                 raise
@@ -390,6 +397,10 @@ def main(argv=None) -> int:
                 (pid, a.tier, derive_seed(seed, pid, w), examples, seconds, known_keys, shrink_seconds, stop_flag)
                 for w in range(workers)
             ]
+        import gc
+
+        gc.collect()
+        gc.freeze()  # keep the forked workers from copying / re-scanning the parent's heap
         with ctx.Pool(workers) as pool:
             r1 = pool.map_async(worker_enumerate, jobs_enum, chunksize=1) if jobs_enum else None
             r2 = pool.map_async(worker_hypothesis, jobs_hyp, chunksize=1) if jobs_hyp else None
